@@ -173,8 +173,18 @@ pub fn child_main(args: &[String]) -> i32 {
             println!("UNDECIDED client send: {e}");
             return 2;
         }
-        // a reply normally comes within a millisecond; a resent one after the next poll round
-        collect(&clients, Duration::from_millis(40), &mut got, &mut stray);
+        // One request at a time: with two replies in flight the injected failures could hit the
+        // first attempt and the resend of the same reply, which the queue is not meant to survive.
+        // A reply normally comes within a millisecond, a resent one after the next poll round;
+        // with the queue on the reply is awaited (bounded only against a starved machine).
+        let patience = if due && case.resend_max > 0 { crate::e2e::reply_wait() } else { Duration::from_millis(200) };
+        let t0 = Instant::now();
+        loop {
+            collect(&clients, Duration::from_millis(20), &mut got, &mut stray);
+            if got.contains_key(&tid) || t0.elapsed() > patience {
+                break;
+            }
+        }
     }
     // long after: a queue that is not emptied keeps sending
     collect(&clients, Duration::from_millis(1500), &mut got, &mut stray);
